@@ -32,6 +32,8 @@ def cfg_args(c):
         a += ["--ranks", c["ranks"], "--net", c.get("net", 0)]
     if c.get("skew"):
         a += ["--skew", c["skew"]]
+    if c.get("park"):
+        a += ["--park", c["park"]]
     return a
 
 
@@ -173,7 +175,7 @@ class Campaign:
         c = res["cfg"]
         self.stats["parallel_traces"] += 1
         key = (res["md"]["family"], res["md"]["mseed"], c.get("threads"), c.get("ckpt"), c.get("batch"), c.get("period"),
-               c.get("switch"), c.get("policy"), c.get("sseed"), c.get("term"), c.get("stop_at"), c.get("ranks"), c.get("net"), c.get("skew"))
+               c.get("switch"), c.get("policy"), c.get("sseed"), c.get("term"), c.get("stop_at"), c.get("ranks"), c.get("net"), c.get("skew"), c.get("park"))
         self.stats["distinct_cfg"].add(key)
         v = res.get("v")
         if v:
@@ -235,6 +237,10 @@ class Campaign:
                 self.machinery.append({"property": "C10", "what": md["why"], "model": (md["family"], md["mseed"])})
                 continue
             cs = [sample_cfg(r, emphasis) for _ in range(cfgs_per_model)] + list(fixed_cfgs or [])
+            if md["family"] == "chain":
+                # the trigger LP belongs to the last thread: keep that thread off the processor while the chain runs ahead
+                cs = [dict(c, threads=3, park=r.choice([600, 1500, 3000]), batch=r.choice([1, 1, 2]), switch=r.choice(["1/1", "1/2", "1/4", "1/8"]))
+                      if not c.get("ranks") else c for c in cs]
             for i, c in enumerate(cs):
                 jobs.append((md, c, i))
         results = vlib.pmap(lambda j: self.run_one(*j), jobs)
